@@ -113,6 +113,7 @@ Proof.
   - destruct k; [injection H as <-; unfold fset_pc; apply Hgen; reflexivity|].
     destruct (fbuf (f_chans f (f_gen f))); [discriminate|]. injection H as <-. apply Hgen; reflexivity.
   - destruct k; [injection H as <-; unfold fset_pc; apply Hgen; reflexivity|].
+    destruct (fbuf (f_chans f (f_gen f))); [discriminate|]. injection H as <-. apply Hgen; reflexivity.  - destruct k; [injection H as <-; unfold fset_pc; apply Hgen; reflexivity|].
     destruct (fbuf (f_chans f (f_gen f))); [discriminate|]. injection H as <-. apply Hgen; reflexivity.
 Qed.
 
@@ -383,6 +384,24 @@ Proof.
       * eapply Henter; [exact Hs|..]; simpl; auto. now rewrite Hstore.
 Qed.
 
+Lemma sim_putlost sg f c t f' :
+  InvF f -> Sim f c -> fstep sg f (FEPutLost t) = Some f' -> simulated sg f' c.
+Proof.
+  intros I Sm H. simpl in H.
+  destruct (f_pcs f t) as [|ch|g| |old|nw o|oi ap|r k|r|r|r] eqn:Hpc; try discriminate.
+  assert (Hp : fpre (f_pcs f t) = true) by now rewrite Hpc.
+  pose proof (s_pcs f c Sm t) as Ht. rewrite Hpc in Ht. simpl in Ht.
+  pose proof (s_reg f c Sm) as Hreg. pose proof (s_store f c Sm) as Hstore.
+  injection H as <-.
+  set (c1 := set_pc (add_lin (set_reg c (Some nw) (nw :: store c)
+                        (match o with Some oi => oi :: junk c | None => junk c end))) t (Completing RLost)).
+  assert (Hs : step sg c (EPutLost t) = Some c1) by (simpl; rewrite Ht; reflexivity).
+  destruct (sim_enter sg f c c1 t RLost (f_committed f) (Some nw) (nw :: f_store f) I Sm Hp) as (c2 & Hs2 & S2);
+    try reflexivity.
+  { simpl. now rewrite Hstore. }
+  exists [EPutLost t; EComplete t], c2. split; [cbn -[step]; rewrite Hs; cbn -[step]; rewrite Hs2; reflexivity|exact S2].
+Qed.
+
 Lemma sim_del sg f c t fl f' :
   InvF f -> Sim f c -> fstep sg f (FEDel t fl) = Some f' -> simulated sg f' c.
 Proof.
@@ -417,6 +436,7 @@ Proof.
   - eapply sim_prepare; eauto.
   - eapply sim_commit; eauto.
   - eapply sim_put; eauto.
+  - eapply sim_putlost; eauto.
   - eapply sim_del; eauto.
   - eapply sim_notify; eauto.
   - eapply sim_swap; eauto.
